@@ -687,7 +687,9 @@ cannot convert calendric system internally");
 		}
 		rc = 1;
 		goto out;
-	} else if (dt_sandwich_only_t_p(clo.fst) && clo.ite->dv == 0) {
+	} else if (dt_sandwich_only_t_p(clo.fst) && clo.ite->dv == 0 &&
+		   argi->nargs < 3U) {
+		/* no increment given, guess one */
 		*clo.ite = tseq_guess_ite(clo.fst.t, clo.lst.t);
 	}
 
